@@ -12,13 +12,14 @@ from .. import common
 _amp = None
 
 
-def _impl(seq):
+def _impl(seq, debug=False):
     global _amp
     if _amp is None:
         _amp = common.import_ampycloud()
     from ampycloud import icao
     try:
-        out = icao.significant_cloud(list(seq))
+        with common.debug_logging(debug):
+            out = icao.significant_cloud(list(seq))
         return ''.join('T' if bool(b) else 'F' for b in out), [type(b).__name__ for b in out if not isinstance(b, bool)]
     except Exception as e:  # any exception on a list of ints is a property failure (total function)
         return f'EXC:{type(e).__name__}', []
@@ -58,7 +59,8 @@ def run(chk):
     common.import_ampycloud()
     maxlen = 5 if chk.tier == 'quick' else 7
     chk.rule = (f'all sequences over okta 0..8 of length 0..{maxlen} (exhaustive) + random sequences up to '
-                'length 40 with values in -3..12 and numpy integer element types; non-trivial = length >= 2 '
+                'length 40 with values in -3..12 and numpy integer element types + all sequences to length 4 with the '
+                'package loggers at DEBUG; non-trivial = length >= 2 '
                 'and at least one flag set; distinct by sequence')
     chk.exhaustive = True
     tasks = [(L, f) for L in range(1, maxlen + 1) for f in range(9)]
@@ -91,6 +93,10 @@ def run(chk):
             chk.count('non_bool_flag_types')
         rnd.append((seq, fl))
     _compare(chk, rnd)
+    # ambient configuration: the same function with the package's loggers at DEBUG (all sequences to length 4)
+    dbg = [(seq, _impl(seq, debug=True)[0]) for L in range(0, 5) for seq in itertools.product(range(9), repeat=L)]
+    chk.count('sequences_under_debug_logging', len(dbg))
+    _compare(chk, dbg)
     return _search
 
 
